@@ -353,7 +353,8 @@ def main(prop, analyse, mutants=None, description=""):
             return 0
         if tier == "thorough" and mutants is not None and not new and not chk.errors:
             from sa import selftest as st
-            selftest = st.run(prop, analyse, mutants, tree, jobs=args.j, seed=seed)
+            own = getattr(sys.modules.get("__main__"), "_analyse_own", None)
+            selftest = st.run(prop, analyse, mutants, tree, jobs=args.j, seed=seed, own=own)
         ev = chk.evidence(selftest)
         if not args.no_evidence and args.root is None:
             write_evidence(prop, ev)
